@@ -16,7 +16,10 @@ the configured n_jobs to the right level.  Real joblib (loky / threading) runs a
 runs, re-estimation from stored data, and an independent reconstruction of the seed tree (numpy
 SeedSequence children -> MT19937 streams -> the library's generators) must give the same table.  The
 single-setting entry point with integer and generator seeds: repetitions differ and equal the
-reconstruction from one continued stream.  MC_C15_aux: exact depolarising noise on the catalogue and the
+reconstruction from one continued stream.  C->S: real runs of the estimation level on joblib's threading backend are
+recorded at the two linearisation points of every loss-minimisation task (configure the loss object / start the
+optimiser, with the identity of the loss object and digests of the data) and validated by TLC against QSim
+(Trace_C15: the logged object identity drives QSim's SetE / OptE; refinement of the held data, OwnData, private copies).  MC_C15_aux: exact depolarising noise on the catalogue and the
 decision table of the built-in physicality check, replayed row by row with fabricated results."""
 import os
 import shutil
@@ -191,6 +194,42 @@ def replay_schedules(chk, schedules):
                               dict(par=par))
             if i < 2:
                 chk.sample(dict(par=par, schedule=sched[:14]))
+    finally:
+        shutil.rmtree(root, ignore_errors=True)
+
+
+def trace_threaded(chk):
+    """C->S: events of real threaded estimation runs validated by TLC against QSim (Trace_C15)."""
+    root = scratch()
+    try:
+        for kind, cases in (("state", ("lsq", "wlsq")), ("povm", ("lsq", "wlsq"))):
+            ts = simrun.make_setting(kind=kind, noise="rel" if kind == "state" else "depolarized", n_sample=2, n_rep=4, num_data=(40,), cases=cases)
+            try:
+                ev, _ = simrun.record_threaded_estimation(ts, os.path.join(root, kind))
+            except Exception as e:
+                chk.violation("trace:exception:%s" % kind, "threaded run raised %r" % e, dict(kind=kind))
+                continue
+            if len(ev) != 2 * 2 * 2 * 4:
+                raise core.MachineryError("recorder produced %d events, expected 32" % len(ev))
+            r = core.validate_traces("trace/Trace_C15", "trace/Trace_C15.cfg", ev)
+            chk.states += r.distinct
+            chk.transitions += r.generated
+            chk.tlc_runs.append(dict(instance="Trace_C15 threaded estimation (%s)" % kind, lines=len(ev), **r.as_dict()))
+            rep = [e for e in r.emitted if "consumed" in e]
+            if not rep or rep[-1]["consumed"] != len(ev) or rep[-1]["done"] != 16:
+                raise core.MachineryError("trace validation did not consume the recorded run")
+            chk.validated += len(ev)
+            chk.count(len(ev), ("trace", kind))
+            for l in sorted(rep[-1]["bad"])[:4]:
+                e = ev[l - 1]
+                if e["ev"] == "SetE":
+                    chk.violation("trace:shared_loss_object:%s" % kind,
+                                  "repetition %d of sample %d case %d configures loss object #%d, which another repetition of that case also uses (line %d of the recorded run)" % (e["r"], e["s"], e["c"], e["loss"], l),
+                                  dict(kind=kind, line=l, event=e, trace=ev[:l]))
+                else:
+                    chk.violation("trace:own_data:%s" % kind,
+                                  "algo.optimize of repetition %d (sample %d, case %d) starts on a loss object that does not hold this repetition's data (line %d)" % (e["r"], e["s"], e["c"], l),
+                                  dict(kind=kind, line=l, event=e, trace=ev[:l]))
     finally:
         shutil.rmtree(root, ignore_errors=True)
 
@@ -384,6 +423,7 @@ def run(chk):
         flow_checks(chk, "mprocess", "depolarized", t, rs)
         flow_checks(chk, "state", "depolarized", t, rs)
     single_entry(chk)
+    trace_threaded(chk)
     aux = chk.tlc("mc/MC_C15_aux", "mc/MC_C15_aux.cfg", workers=8, label="MC_C15_aux")
     cache = {}
     for item in aux.emitted:
